@@ -4,6 +4,7 @@ from __future__ import annotations
 import ast
 import itertools
 import json
+import re
 import time
 import typing
 from pathlib import Path
@@ -550,13 +551,126 @@ def cont_of(case: dict, j: int) -> str:
     return (case.get("containers") or [case["container"]] * len(case["keys"]))[j]
 
 
+# ------------------------------------------------------------------ the family of anchor names
+# A definition that is the target of an 'anchor' edge (or of a root reference listed in `root_anchors`)
+# declares `"$id": "#<name>"` and is referenced as `"$ref": "#<name>"` — the IDENTICAL string.  `<name>` is a
+# parameter of the case (`case["anchors"][j]`; absent / null = the historical `anc{j}`).  The family: every
+# non-empty string that does not start with "/" ("#" alone is the document root and "#/…" is a JSON pointer:
+# those are not anchors, the property's `$id`/anchor clause does not speak about them), the names emitted into one
+# file pairwise different (two subschemas declaring the same `$id` make the reference ambiguous).  Inside the
+# family sit the plain names of the JSON-Schema drafts (`^[A-Za-z][-A-Za-z0-9.:_]*$`, class `spec`) and the near
+# misses that the generator accepts as well and resolves by string identity (its rule is "`#` followed by
+# anything but `/`"): digit-/underscore-/hyphen-initial, non-ASCII letters, blanks and percent signs, further
+# `#`, a later `/`, other punctuation.  Every class was run on the unchanged tree before it was admitted.
+PLAIN_NAME = r"[A-Za-z][-A-Za-z0-9.:_]*"
+ANCHOR_POOLS: dict[str, list[str]] = {
+    "letters": ["address", "Foo", "anchor", "Anchor", "ANCHOR", "item", "a", "Z", "thing", "Thing"],
+    "hyphen": ["street-address", "order-line", "a-b", "x-", "a--b", "Pets-item"],
+    "dot": ["a.b", "v1.2", "a.", "x.y.z", "a.json"],
+    "colon-underscore-digit": ["ns:item", "a_b", "a1", "item2", "a:", "A_1.b:c-d", "urn:x"],
+    "digit-initial": ["1a", "007", "1", "2-b"],
+    "underscore-initial": ["_a", "__", "_", "_1"],
+    "hyphen-dot-colon-initial": ["-a", "-", ".", "..", ".a", ":a"],
+    "non-ascii": ["\u00e9", "adr\u00ebsse", "\u65e5\u672c", "\uff21", "a\u00e9", "\u00dcn\u00ef", "pet\u2070"],
+    "blank-percent": ["a b", "a%20b", "%", " a", "a ", "a\tb", "%41"],
+    "hash": ["#", "#a", "a#", "a#b", "##"],
+    "later-slash": ["a/b", "definitions/Pet", "a/", "$defs/x"],
+    "punct": ["a?b", "a&b=c", "$a", "a~1b", "!", "a+b", "a@b", "(a)", "a,b", "a;b", "a'b", 'a"b', "a\\b", "{a}", "[a]", "*", "a|b", "<a>", "a=b"],
+    "newline": ["a\nb"],
+    "long": ["a" * 70, "street-address-" * 6 + "x"],
+}
+
+
+def anchor_shape(name: str | None) -> str:
+    """the class of an anchor name (input distribution, failure classification)"""
+    if name is None or re.fullmatch(r"anc\d+", name):
+        return "default"
+    if re.fullmatch(PLAIN_NAME, name):
+        if "-" in name:
+            return "spec:hyphen"
+        if "." in name or ":" in name:
+            return "spec:dot-colon"
+        return "spec:word" if len(name) > 1 else "spec:one-letter"
+    if not name.isascii():
+        return "near:non-ascii"
+    c = name[0]
+    if c.isdigit():
+        return "near:digit-initial"
+    if c == "_":
+        return "near:underscore-initial"
+    if c in "-.:":
+        return "near:hyphen-dot-colon-initial"
+    if "#" in name:
+        return "near:hash"
+    if "/" in name:
+        return "near:later-slash"
+    if any(ch in name for ch in " %\t\n"):
+        return "near:blank-percent"
+    return "near:punct"
+
+
+def anchor_of(case: dict, j: int) -> str:
+    a = (case.get("anchors") or [None] * len(case["keys"]))[j]
+    return f"anc{j}" if a is None else a
+
+
+def anchored_defs(case: dict) -> list[int]:
+    """definitions that declare an `$id` in the document built from `case`"""
+    files = case.get("files") or [0] * len(case["keys"])
+    out = {j for i, j, k in case["edges"] if k == "anchor" and files[i] == files[j]}
+    out |= {i for i in case.get("root_anchors") or [] if files[i] == 0}
+    return sorted(out)
+
+
+def check_anchor_family(case: dict) -> None:
+    """raise ValueError for a case outside the family described above"""
+    files = case.get("files") or [0] * len(case["keys"])
+    seen: set = set()
+    for j in anchored_defs(case):
+        a = anchor_of(case, j)
+        if not isinstance(a, str) or a == "" or a[0] == "/":
+            raise ValueError(f"anchor name {a!r} of definition {j}: '#' is the document root and '#/...' a JSON pointer, not an anchor")
+        if (files[j], a) in seen:
+            raise ValueError(f"anchor name {a!r} declared twice in one file: the reference is ambiguous")
+        seen.add((files[j], a))
+    if any(i not in case["root_refs"] for i in case.get("root_anchors") or []):
+        raise ValueError("root_anchors must be a subset of root_refs")
+
+
+def gen_anchor_names(rng: Rng, keys: list[str]) -> list[str]:
+    """one anchor name per definition, pairwise different: pools by class, names equal to a definition key /
+    to the class-name form of a key, case variants of one another, random compositions of class units"""
+    out: list[str] = []
+    for j in range(len(keys)):
+        for _ in range(20):
+            k = rng.below(20)
+            if k < 12:
+                name = rng.choice(ANCHOR_POOLS[rng.choice(list(ANCHOR_POOLS))])
+            elif k < 14:  # equal to a definition key of the document (its own or another one's), or a colliding spelling
+                name = rng.choice(keys + E2E_KEYS[:12])
+            elif k < 16 and out:  # differs from an earlier anchor only in case / by one character
+                prev = rng.choice(out)
+                name = rng.choice([prev.swapcase(), prev.upper(), prev.lower(), prev + rng.choice("-._:1x"), prev[:-1] or prev + prev])
+            elif k < 17:
+                name = f"anc{rng.below(len(keys))}"  # the historical name, possibly of ANOTHER definition
+            else:
+                units = ["a", "b", "Z", "pet", "Pet", "1", "9", "_", "-", ".", ":", "\u00e9", " ", "%", "#", "/", "~", "$", "?"]
+                name = "".join(rng.choice(units) for _ in range(rng.range(1, 5)))
+            if name and name[0] != "/" and name not in out:
+                break
+        else:
+            name = f"anchor-{j}"
+        out.append(name)
+    return out
+
+
 def ref_to(case: dict, i_from: int | None, j: int, kind: str = "ref") -> str:
     """JSON reference from definition i_from (None = root object of main.json) to definition j"""
     files = case.get("files") or [0] * len(case["keys"])
     f_from = 0 if i_from is None else files[i_from]
     same_file = files[j] == f_from
     if kind == "anchor" and same_file:
-        return f"#anc{j}"
+        return "#" + anchor_of(case, j)
     file_part = "" if same_file else ("other.json" if files[j] == 1 else "main.json")
     return f"{file_part}#/{cont_of(case, j)}/{case['keys'][j]}" + (f"/properties/sub{j}" if kind == "deep" else "")
 
@@ -589,11 +703,14 @@ def chain_info(case: dict) -> tuple[set, set]:
 def build_e2e_doc(case: dict) -> tuple[typing.Any, str]:
     """case = {container, keys (document order), edges [[i, j, 'ref'|'array'|'deep'|'anchor']], root_refs [i…],
     files (optional: 0 = main.json, 1 = other.json per definition),
-    containers (optional: container per definition, for documents that have `definitions` AND `$defs`)}.
+    containers (optional: container per definition, for documents that have `definitions` AND `$defs`),
+    anchors (optional: anchor name per definition, null = `anc{j}`; see "the family of anchor names"),
+    root_anchors (optional: those of root_refs that the root object writes as `$ref: "#<anchor>"`)}.
     Every definition i carries the marker member `mk{i}x`; the root object carries `mkrootx`; a definition
     that is the target of a 'deep' edge has a nested object `sub{j}` with marker `mkd{j}x`; the target of an
-    'anchor' edge has `$id: "#anc{j}"`.
+    'anchor' edge (same file) or of a root anchor reference has `$id: "#<anchor name>"`.
     Returns (document or {file name: document}, input file type)."""
+    check_anchor_family(case)
     keys = case["keys"]
     files = case.get("files") or [0] * len(keys)
     defs: list[dict] = [{}, {}]  # per file: container -> key -> schema
@@ -622,14 +739,15 @@ def build_e2e_doc(case: dict) -> tuple[typing.Any, str]:
                     schema(k)["properties"][f"e{k}"] = {"$ref": f"#/extras/s{k}"}
             extras[f"s{i}"]["properties"][f"c{i}to{j}"] = {"$ref": f"#/extras/s{j}"}
         else:
-            if kind == "anchor" and files[i] == files[j]:
-                schema(j)["$id"] = f"#anc{j}"
             props[f"r{i}to{j}"] = {"$ref": ref_to(case, i, j, kind)}
+    for j in anchored_defs(case):
+        schema(j)["$id"] = "#" + anchor_of(case, j)
     if case["container"] == "components/schemas":
         return {"openapi": "3.0.0", "info": {"title": "t", "version": "1"}, "paths": {}, "components": {"schemas": defs[0].get("components/schemas", {})}}, "openapi"
     props = {"mkrootx": {"type": "integer"}}
+    root_anchors = case.get("root_anchors") or []
     for i in case["root_refs"]:
-        props[f"rRto{i}"] = {"$ref": ref_to(case, None, i)}
+        props[f"rRto{i}"] = {"$ref": ref_to(case, None, i, "anchor" if i in root_anchors else "ref")}
     main = {"title": "RootDoc", "type": "object", "properties": props, **defs[0]}
     if extras:
         main["extras"] = extras
@@ -752,6 +870,15 @@ def e2e_oracle(ck: Check, camp, case: dict) -> bool:
     two = len(set(case.get("containers") or [])) > 1
     if two:
         camp.hit("two-containers")
+    shapes = sorted({anchor_shape((case.get("anchors") or [None] * n)[j]) for j in anchored_defs(case)})
+    for sh in shapes:
+        camp.hit("anchor:" + sh)
+    if case.get("root_anchors"):
+        camp.hit("anchor:from-root")
+    if shapes and two:
+        camp.hit("anchor:two-containers")
+    if shapes and multi:
+        camp.hit("anchor:in-cross-file-case")
     base = {
         "oracle": "e2e",
         "shape": "two_containers" if two else ("cross_file" if multi else "single"),
@@ -759,6 +886,8 @@ def e2e_oracle(ck: Check, camp, case: dict) -> bool:
         "kind": model,
         "key_classes": sorted({key_class(k) for k in keys}),
     }
+    if shapes:
+        base["anchor_shapes"] = shapes
 
     def fail(mech: str, observed: str) -> bool:
         camp.hit("fail:" + mech)
@@ -851,6 +980,24 @@ def e2e_oracle(ck: Check, camp, case: dict) -> bool:
 
 
 def gen_e2e_case(rng: Rng) -> dict:
+    # the anchor names come from a stream of their own (derived from the state of `rng`, which is not advanced)
+    arng = Rng(rng.s, "anchor-names")
+    case = _gen_e2e_case(rng)
+    n = len(case["keys"])
+    files = case.get("files") or [0] * n
+    if case["container"] != "components/schemas":
+        if arng.chance(1, 3):
+            # the root object references some definitions through their anchors (main.json only)
+            case["root_anchors"] = [i for i in case["root_refs"] if files[i] == 0 and arng.chance(1, 2)]
+        same_file_refs = [e for e in case["edges"] if e[2] == "ref" and files[e[0]] == files[e[1]]]
+        if not anchored_defs(case) and same_file_refs and arng.chance(1, 4):
+            arng.choice(same_file_refs)[2] = "anchor"
+        if anchored_defs(case) and arng.chance(5, 6):
+            case["anchors"] = gen_anchor_names(arng, case["keys"])
+    return case
+
+
+def _gen_e2e_case(rng: Rng) -> dict:
     n = rng.range(2, 5)
     pool = E2E_KEYS if rng.chance(1, 2) else CORE_KEYS
     keys = rng.sample(pool, n)
@@ -930,9 +1077,11 @@ def campaign_e2e(ck: Check, n: int, label: str = "", extra: list | None = None) 
         perm = rng.shuffle(list(range(len(case["keys"]))))
         inv = {old: new for new, old in enumerate(perm)}
         permuted = dict(case, keys=[case["keys"][i] for i in perm], edges=[[inv[i], inv[j], k] for i, j, k in case["edges"]], root_refs=[inv[i] for i in case["root_refs"]])
-        for per_def in ("files", "containers"):
+        for per_def in ("files", "containers", "anchors"):
             if per_def in case:
                 permuted[per_def] = [case[per_def][i] for i in perm]
+        if "root_anchors" in case:
+            permuted["root_anchors"] = [inv[i] for i in case["root_anchors"]]
         e2e_oracle(ck, camp, permuted)
     camp.wall_s = time.time() - t0
 
